@@ -630,7 +630,7 @@ int main(int argc, char **argv) {
   for (auto &p : queue_programs(FIFO, th)) progs.push_back(p);
   for (auto &p : queue_programs(PRIO, th)) progs.push_back(p);
   vh::Rng rng(R.seed);
-  long cap = th ? 30000 : 2500;
+  long cap = th ? 6000 : 1200;
   for (auto &prog : progs) {
     Holder h{&prog, nullptr};
     vs::Factory f = h.factory();
